@@ -13,13 +13,14 @@ ROOT = os.path.dirname(os.path.dirname(os.path.abspath(__file__)))
 PROPERTY = {
     'id': 'C20',
     'engine': 'sched-smt',
-    'technique': 'z3 encoding of thread interleavings generated from executions of the real code: every access to the shared-state cells named by the property is recorded per thread, one integer time-stamp per event, program order + read-from constraints; the solver decides whether ANY schedule lets a read observe another thread\'s write (unsat = no interleaving can change any thread\'s reads); satisfying schedules are replayed with real threads under a baton-passing scheduler before anything is reported',
+    'technique': 'z3 encoding of thread interleavings generated from executions of the real code, which is compiled from /repo\'s current source through an instrumenting AST transformer (import hook): every load / store / delete of an attribute that lives on a class, metaclass or module of the package, every `global` variable access, every Python-level access to a module-/class-level dict/list/set (recording subclasses) and every access to the thread-local slots named by the property is an event; one integer time-stamp per event, program order + read-from constraints; the solver decides whether ANY schedule lets a read return what another thread\'s write stored (unsat = no interleaving can change any thread\'s reads); satisfying schedules are replayed with real threads under a baton-passing scheduler before anything is reported',
     'level_text': 'Bounded predictive analysis decided by z3: for every scenario (2..3 threads with different files, safe flags, an include, a failing input) the query "some schedule makes some read return a value written by another thread" is unsat over ALL interleavings at shared-memory-event granularity (finer than Python lines).  Inputs are enumerated scenarios; only the schedule is symbolic.',
     'assumptions': [
-        'the wrapped cells are all inter-thread communication of a build: ConfigNode._default_filename, ConfigNode._default_safe (incl. re-binding of these class slots), errors._api_entered, and EVERY plain dict/list/set held at module or class level of the package (replaced by recording subclasses, so a write during a build is an event; cells no thread writes are dropped from the encoding); state reachable only through instances, closures or other packages is not recorded',
+        'inter-thread communication of a build goes through state held by classes / modules of the package: attributes of classes, metaclasses and modules (source instrumentation), module-/class-level dict/list/set objects (recording subclasses), the thread-local holders ConfigNode._default_filename / _default_safe (metaclass slot + proxy) and errors._api_entered (proxy); cells no thread of a scenario writes are dropped from the encoding; state reachable only through instances, closures, or held by other packages (PyYAML loader tables, sys.modules) is not recorded',
+        'the instrumented package computes what the package as shipped computes: checked on every run for every thread body (run alone, un-instrumented, in a separate process)',
         'lazily filled caches are warm: every body runs once unrecorded before the recording (first-use races of the scalar type tables are outside the claim)',
         'each wrapped access is atomic under the GIL; the code of a thread is deterministic given the values it reads',
-        'vacuity guard: the same machinery run on a twin in which one slot is a plain (non thread-local) object must find and replay a real violation',
+        'vacuity guards: the same machinery run on (1) a twin in which one slot is a plain (non thread-local) object and (2) a twin in which the builder parks itself in a plain class attribute during add_source must each find and replay a real violation',
     ],
     'bounds': {'threads': '2 (quick) / 2..4 (thorough)', 'scenarios': 'quick: 9 pairs; thorough: all 36 pairs (with repetition), all 56 triples and 4 quadruples over 8 thread bodies (safe file, unsafe file, file with include, failing input after a good source, multi-document file, evaluated unsafe call (refused), the same call from a safe file, evaluated safe file with xref/eval/call sharing paths with the former)',
                'events': '<= ~400 per thread'},
@@ -66,12 +67,33 @@ def scenarios(tier):
 
 def run(tier, seed, twin=False):
     sys.path.insert(0, ROOT)
-    from engine import sched_smt as ss
+    from engine import sched_smt as ss, sched_instr
+    sched_instr.install_hook(ss.S)       # the package is compiled from its current source through the instrumenting transformer
     t0 = time.time()
     d = tempfile.mkdtemp(prefix='verif_C20_', dir=os.environ.get('VERIF_WORK', '/var/tmp'))
     try:
         write_files(d)
-        if twin:
+        if twin == 'attr':
+            # second twin: a per-parse value parked in a plain CLASS attribute (found only by the source instrumentation)
+            import awesomeyaml.builder as ab
+            orig_add = ab.Builder.add_source
+
+            def add_source(self, source, *a, **kw):
+                ab.Builder.current = self
+                r = orig_add(self, source, *a, **kw)
+                if ab.Builder.current is not self:
+                    raise RuntimeError('builder changed under my feet')
+                return r
+            src = 'def add_source(self, source, *a, **kw):\n    Builder.current = self\n    r = _orig_add(self, source, *a, **kw)\n    if Builder.current is not self:\n        raise RuntimeError("builder changed under my feet")\n    return r\n'
+            import ast
+            tree = ast.parse(src)
+            tree = sched_instr.Instr('awesomeyaml.builder', tree).visit(tree)
+            ast.fix_missing_locations(tree)
+            ns = {'Builder': ab.Builder, '_orig_add': orig_add}
+            exec(compile(tree, '<twin>', 'exec'), ns)
+            ab.Builder.current = None
+            ab.Builder.add_source = ns['add_source']
+        elif twin:
             import types
             from awesomeyaml.nodes.node import ConfigNode
             ConfigNode._default_filename = types.SimpleNamespace()     # the twin: a slot that is NOT thread-local
@@ -84,9 +106,13 @@ def run(tier, seed, twin=False):
             r = ss.solve_scenario(threads)
             r['scenario'] = sc
             results.append(r)
+            r['seq'] = json.loads(json.dumps(r['seq'], default=repr).replace(d, '<D>'))
             if twin and r['verdict'] == 'violation':
                 break
-        return {'results': results, 'cells': cells, 'inventory': inventory, 'wall': time.time() - t0, 'dir': d}
+        st = sched_instr.STATS
+        instr = {'modules_instrumented': sorted(st['modules']), 'attribute_loads': st['loads'], 'attribute_stores': st['stores'],
+                 'global_loads': st['global_loads'], 'global_stores': st['global_stores'], 'not_instrumented': sorted(set(st['skipped']))}
+        return {'results': results, 'cells': cells, 'inventory': inventory, 'wall': time.time() - t0, 'dir': d, 'instrumentation': instr}
     finally:
         shutil.rmtree(d, ignore_errors=True)
 
@@ -98,19 +124,30 @@ def main(tier, seed):
     t0 = time.time()
     out = subprocess.run([py, '-m', 'harness.C20', 'run', tier, str(seed)], cwd=ROOT, env=env, capture_output=True, text=True, timeout=3000)
     tw = subprocess.run([py, '-m', 'harness.C20', 'twin', 'quick', str(seed)], cwd=ROOT, env=env, capture_output=True, text=True, timeout=3000)
+    tw2 = subprocess.run([py, '-m', 'harness.C20', 'twin_attr', 'quick', str(seed)], cwd=ROOT, env=env, capture_output=True, text=True, timeout=3000)
+    pl = subprocess.run([py, '-m', 'harness.C20', 'plain', tier, str(seed)], cwd=ROOT, env=env, capture_output=True, text=True, timeout=3000)
 
     def parse(p):
         for line in p.stdout.splitlines():
             if line.startswith('C20-RESULT '):
                 return json.loads(line[len('C20-RESULT '):])
         return None
-    res, twin = parse(out), parse(tw)
-    if res is None or twin is None:
-        print('MACHINERY-ERROR C20 engine produced no result', (out.stderr or '')[-1500:], (tw.stderr or '')[-800:])
+    res, twin, twin2, plain = parse(out), parse(tw), parse(tw2), parse(pl)
+    if res is None or twin is None or twin2 is None or plain is None:
+        print('MACHINERY-ERROR C20 engine produced no result', (out.stderr or '')[-1500:], (tw.stderr or '')[-800:], (tw2.stderr or '')[-800:], (pl.stderr or '')[-800:])
         return 3
+    # the instrumented package must compute what the package as shipped computes (encoding validated against the real code)
+    validated = 0
+    for r in res['results']:
+        for i, n in enumerate(r['scenario']):
+            if r['seq'].get('%s%d' % (n, i)) != plain['bodies'].get(n):
+                print('MACHINERY-ERROR C20 the instrumented package and the package as shipped disagree on body %s: %r vs %r'
+                      % (n, str(r['seq'].get('%s%d' % (n, i)))[:300], str(plain['bodies'].get(n))[:300]))
+                return 3
+            validated += 1
     viol = [r for r in res['results'] if r['verdict'] == 'violation']
     inconc = [r for r in res['results'] if r['verdict'] in ('unknown',) or (r['verdict'] == 'benign_exhausted' and r.get('note'))]
-    twin_detected = any(r['verdict'] == 'violation' for r in twin['results'])
+    twin_detected = any(r['verdict'] == 'violation' for r in twin['results']) and any(r['verdict'] == 'violation' for r in twin2['results'])
     n_ev = sum(r['stats']['events'] for r in res['results'])
     n_q = sum(r['stats']['queries'] for r in res['results'])
     st = sum(r['stats']['solver_time'] for r in res['results'])
@@ -118,7 +155,8 @@ def main(tier, seed):
         'property_id': 'C20', 'tier': tier, 'seed': seed, 'level': 'model_checking',
         'coverage': {
             'states': max(1, n_ev), 'transitions': max(1, n_q),
-            'traces_validated_against_impl': sum(r['stats']['candidates_replayed'] for r in res['results']) + sum(r['stats']['candidates_replayed'] for r in twin['results']),
+            'traces_validated_against_impl': validated + sum(r['stats']['candidates_replayed'] for r in res['results']) + sum(r['stats']['candidates_replayed'] for r in twin['results'] + twin2['results']),
+            'instrumentation': res.get('instrumentation'),
             'samples': [{'scenario': r['scenario'], 'verdict': r['verdict'], 'stats': r['stats']} for r in res['results'][:6]],
             'obligations': len(res['results']), 'discharged': sum(1 for r in res['results'] if r['verdict'] in ('unsat', 'benign_exhausted') and not r.get('note')),
             'exhaustive': not viol and not inconc,
@@ -126,7 +164,8 @@ def main(tier, seed):
                            'or every satisfying schedule replayed with real threads and found benign then blocked until unsat.',
             'technique': PROPERTY['technique'], 'functions_encoded': res['cells'],
             'shared_state_inventory': res['inventory'], 'solver_queries': n_q, 'solver_time_s': round(st, 3),
-            'twin': {'detected': twin_detected, 'results': [{'scenario': r['scenario'], 'verdict': r['verdict'], 'diff': r.get('diff')} for r in twin['results']][:3]},
+            'twin': {'detected': twin_detected, 'results': [{'scenario': r['scenario'], 'verdict': r['verdict'], 'diff': r.get('diff')} for r in twin['results']][:3],
+                     'results_class_attribute_twin': [{'scenario': r['scenario'], 'verdict': r['verdict'], 'diff': r.get('diff')} for r in twin2['results']][:3]},
             'bounds': PROPERTY['bounds'], 'outside_claim': PROPERTY['outside'],
         },
         'assumptions': PROPERTY['assumptions'], 'wall_s': round(time.time() - t0, 2), 'violations': len(viol),
@@ -160,7 +199,8 @@ def main(tier, seed):
 def replay_file(body):
     """re-run a recorded schedule with real threads"""
     sys.path.insert(0, ROOT)
-    from engine import sched_smt as ss
+    from engine import sched_smt as ss, sched_instr
+    sched_instr.install_hook(ss.S)
     d = tempfile.mkdtemp(prefix='verif_C20_', dir=os.environ.get('VERIF_WORK', '/var/tmp'))
     try:
         write_files(d)
@@ -179,7 +219,30 @@ def replay_file(body):
         shutil.rmtree(d, ignore_errors=True)
 
 
+def plain(tier):
+    """every thread body run alone on the package AS SHIPPED (no import hook, no wrapped cell)"""
+    sys.path.insert(0, ROOT)
+    from engine import sched_smt as ss
+    import threading
+    d = tempfile.mkdtemp(prefix='verif_C20_', dir=os.environ.get('VERIF_WORK', '/var/tmp'))
+    try:
+        write_files(d)
+        out = {}
+        for n, spec in bodies(d).items():
+            res = {}
+            th = threading.Thread(target=ss.run_body, args=(n, spec, res))
+            th.start()
+            th.join()
+            out[n] = json.loads(json.dumps(res[n], default=repr).replace(d, '<D>'))
+        return {'bodies': out}
+    finally:
+        shutil.rmtree(d, ignore_errors=True)
+
+
 if __name__ == '__main__':
     mode, tier, seed = sys.argv[1], sys.argv[2], int(sys.argv[3])
-    r = run(tier, seed, twin=(mode == 'twin'))
+    if mode == 'plain':
+        r = plain(tier)
+    else:
+        r = run(tier, seed, twin={'twin': True, 'twin_attr': 'attr'}.get(mode, False))
     print('C20-RESULT ' + json.dumps(r, default=repr))
